@@ -184,7 +184,7 @@ Theorem C05_gen_new_proposal_decisions :
   forall qb agreed hist added p t,
   new_props qb agreed hist added (p :: t) =
   match g_cbp_new_body (prop_exists hist p) (perf_exists agreed p) (memN (p_wid p) added) (has_ext p) with
-  | ([], Cont) => new_props qb agreed hist added t
+  | ([], Fall) => new_props qb agreed hist added t
   | ([1; 2; 3; 4; 5; 6], Fall) | ([1; 2; 3; 5; 6], Fall) => restamp qb p :: new_props qb agreed hist (p_wid p :: added) t
   | _ => []
   end.
